@@ -104,24 +104,30 @@ Qed.
 
 (** ** the two new branches weigh as much as the branch that is cut *)
 Definition half_edge (e : einfo) : einfo :=
-  if qltb 0 (elen e) then mkE (qhalf (elen e)) (esup e) nilv [] else e0.
+  mkE (if qeqb (elen e) nilv then nilv else qhalf (elen e))
+      (if qeqb (esup e) nilv then nilv else esup e) nilv [].
 
 Lemma len0_half_edge e : (len0 (half_edge e) + len0 (half_edge e) == len0 e)%Q.
 Proof.
-  unfold half_edge, qltb, len0, qhalf.
-  destruct (Qle_bool (elen e) 0) eqn:E1; simpl.
-  - apply Qle_bool_iff in E1.
-    destruct (Qle_bool 0 (elen e)) eqn:E2.
-    + apply Qle_bool_iff in E2. assert (elen e == 0)%Q by (apply Qle_antisym; auto).
-      rewrite H. reflexivity.
-    + reflexivity.
-  - assert (H : (0 < elen e)%Q).
-    { apply Qnot_le_lt. intros H. apply Qle_bool_iff in H. congruence. }
-    assert (H1 : Qle_bool 0 (elen e * (1 # 2)) = true).
-    { apply Qle_bool_iff. apply Qmult_le_0_compat; [apply Qlt_le_weak; auto | discriminate]. }
-    rewrite H1.
-    assert (H2 : Qle_bool 0 (elen e) = true) by (apply Qle_bool_iff, Qlt_le_weak; auto).
-    rewrite H2. field.
+  unfold half_edge, len0, qhalf. cbn [elen].
+  destruct (qeqb (elen e) nilv) eqn:E0.
+  - unfold qeqb in E0. apply Qeq_bool_iff in E0.
+    assert (H : Qle_bool 0 (elen e) = false).
+    { destruct (Qle_bool 0 (elen e)) eqn:E; auto. apply Qle_bool_iff in E. rewrite E0 in E.
+      exfalso. apply (Qlt_irrefl 0). eapply Qle_lt_trans; [exact E|]. reflexivity. }
+    rewrite H. reflexivity.
+  - destruct (Qle_bool 0 (elen e)) eqn:E1.
+    + apply Qle_bool_iff in E1.
+      assert (H1 : Qle_bool 0 (elen e * (1 # 2)) = true).
+      { apply Qle_bool_iff. apply Qmult_le_0_compat; [auto | discriminate]. }
+      rewrite H1. field.
+    + assert (H1 : Qle_bool 0 (elen e * (1 # 2)) = false).
+      { destruct (Qle_bool 0 (elen e * (1 # 2))) eqn:E; auto. apply Qle_bool_iff in E.
+        assert (0 <= elen e)%Q.
+        { setoid_replace (elen e) with (elen e * (1 # 2) * 2)%Q by field.
+          apply Qmult_le_0_compat; [auto | discriminate]. }
+        apply Qle_bool_iff in H. congruence. }
+      rewrite H1. reflexivity.
 Qed.
 
 (** ** what a success of [reroot_outgroup] (without removal) is made of *)
